@@ -6,7 +6,9 @@ import json, subprocess, os
 TECH = "contract-based deductive verification of the real Go code (own VC generator over go/ssa, contracts in the guarded file verif_contracts.go, z3/cvc5)"
 TRUST = ("Trusted: the lncvc VC generator (symbolic semantics of go/ssa), go/types, the SMT solvers; assumed contracts of the "
          "standard-library functions listed in the evidence; functions are verified sequentially (no interference between statements "
-         "unless stated); unmodelled calls (loggers, user callbacks) are assumed not to touch the modelled state. ")
+         "unless stated); unmodelled calls (loggers, user callbacks) are assumed not to touch the modelled state. "
+         "Thorough tier: the same obligations with a 5x solver budget, and every unsat answer is re-checked by a second, different solver "
+         "(evidence: cross_checked; a sat answer from the second solver is reported as a tool error, never a pass). ")
 
 CLAIMS = {
  "C01": ("Per-function contracts of the Go-Back-N machinery, proved for all window sizes, sequence numbers and packet contents: the receive loop "
@@ -17,7 +19,7 @@ CLAIMS = {
          "These are the per-step clauses of the protocol; the induction from them to 'every message arrives exactly once, in order' over whole executions "
          "(needs atomicity of each queue operation, FIFO transport per direction, a single Send caller) is a paper argument in DESIGN.md, not a machine-checked "
          "lemma; goroutine/timer interleavings are not explored. One explicit ownership assumption: a packet received from sendDataChan is not already queued. "
-         "The thorough tier discharges the same obligations with a 5x solver budget."),
+         ""),
  "C02": ("Per-record clauses proved for every record, key state and input byte string: a Read/ReadMessage returns plaintext only after exactly two AEAD opens "
          "(length header, body) that both authenticated under the receiver's current (key, nonce) pair; every open, successful or not, advances the receive "
          "state by the same spec function csnext that advances the sender's state per seal (lock step); on any failed open the caller gets an error and no "
